@@ -8,9 +8,123 @@
    This file contains only statements, `exact` proofs and Print Assumptions. *)
 From Coq Require Import ZArith List Bool.
 From ScV Require Import Base.CInt Gen.Codec C06.Res C06.B64Model C06.B64Proofs
-  C07.PuffModel C07.DecodeModel C07.PuffSafe C07.PuffHuffman.
+  C07.PuffModel C07.DecodeModel C07.PuffSafe C07.PuffHuffman C07.DecodeSafe.
 Import ListNotations.
 Local Open Scope Z_scope.
+
+(* --- sc_io_decode -------------------------------------------------------------------------------- *)
+(* decode_post out maxsz r :=  match r with
+     | Ok (n, b) => 0 <= n /\ len b = n * o_esz out /\ bytes b /\ (maxsz = 0 \/ len b <= maxsz) /\
+                    (o_owner out = false -> len b <= o_cnt out * o_esz out)
+     | Err e => e = -1 | Oob => False | NoFuel => False end
+   out_ok o := 0 < o_esz o /\ 0 <= o_cnt o /\ o_cnt o * o_esz o < BIG          (BIG = 2^62)
+   alloc_ok data out maxsz := o_owner out = true -> 0 < maxsz < BIG \/ hdr_size data < BIG
+   (hdr_size data = the original size the header of the text declares)
+
+   FULL-STRENGTH statement (all inputs, all output kinds, all maxima):
+     forall data out maxsz, bytes data -> len data < BIG -> out_ok out -> 0 <= maxsz ->
+       decode_post out maxsz (sc_decode data out maxsz).
+   It is FALSE of the pinned code: see C07_decode_unguarded_refuted below (finding
+   declared-size-over-2^62).  It is proved under the exact guard alloc_ok, which excludes only: owner output
+   array AND no maximum (or one >= 2^62) AND declared size >= 2^62. *)
+
+(* the build without zlib (sc_io_nonuncompress + sc_puff + adler32 are inside the model) *)
+Theorem C07_decode_safe : forall data out maxsz,
+  bytes data -> len data < BIG -> out_ok out -> 0 <= maxsz -> alloc_ok data out maxsz ->
+  decode_post out maxsz (sc_decode data out maxsz).
+Proof. exact decode_safe. Qed.
+Print Assumptions C07_decode_safe.
+
+(* no guard at all for views of any capacity and element size ... *)
+Theorem C07_decode_safe_view : forall data out maxsz,
+  bytes data -> len data < BIG -> out_ok out -> 0 <= maxsz -> o_owner out = false ->
+  decode_post out maxsz (sc_decode data out maxsz).
+Proof. exact decode_safe_view. Qed.
+Print Assumptions C07_decode_safe_view.
+
+(* ... and for every output kind when the caller states a maximum *)
+Theorem C07_decode_safe_max : forall data out maxsz,
+  bytes data -> len data < BIG -> out_ok out -> 0 < maxsz < BIG ->
+  decode_post out maxsz (sc_decode data out maxsz).
+Proof. exact decode_safe_max. Qed.
+Print Assumptions C07_decode_safe_max.
+
+(* the same for ANY decompressor that keeps to its contract unc_safe:
+   unc_safe unc := forall src size cap nil, bytes src -> len src < BIG -> 0 <= size ->
+     (nil = false -> size <= cap < BIG) -> (nil = true -> size = 0 /\ 0 <= cap) ->
+     match unc src size cap nil with Ok b => len b = size /\ bytes b | Err e => e = -1 | Oob => False | NoFuel => False end *)
+Theorem C07_decode_with_safe : forall unc data out maxsz,
+  unc_safe unc -> bytes data -> len data < BIG -> out_ok out -> 0 <= maxsz -> alloc_ok data out maxsz ->
+  decode_post out maxsz (sc_decode_with unc data out maxsz).
+Proof. exact decode_with_safe. Qed.
+Print Assumptions C07_decode_with_safe.
+
+(* libsc's own decompressor keeps the contract (from C07_puff_safe) *)
+Theorem C07_nonuncompress_safe : unc_safe nonuncompress.
+Proof. exact nonuncompress_safe. Qed.
+Print Assumptions C07_nonuncompress_safe.
+
+(* the build with zlib: uncompress is external code, its contract is the Section hypothesis *)
+Section Zlib.
+  Variable inflate : list Z -> Z -> option (list Z).
+  Hypothesis inflate_bytes : forall src size d, inflate src size = Some d -> bytes d.
+
+  Theorem C07_decode_zlib_safe : forall data out maxsz,
+    bytes data -> len data < BIG -> out_ok out -> 0 <= maxsz -> alloc_ok data out maxsz ->
+    decode_post out maxsz (sc_decode_with (zlib_unc inflate) data out maxsz).
+  Proof. exact (decode_zlib_safe inflate inflate_bytes). Qed.
+
+  (* sharper guard for this build: the owner must really have got `size` bytes (declared size <= 2^63) *)
+  Theorem C07_decode_zlib_safe_owner_max : forall data out maxsz,
+    bytes data -> len data < BIG -> out_ok out -> 0 <= maxsz ->
+    (o_owner out = true -> hdr_size data <= OWNER_MAX) ->
+    decode_post out maxsz (sc_decode_with (zlib_unc inflate) data out maxsz).
+  Proof. exact (decode_zlib_safe_owner_max inflate inflate_bytes). Qed.
+
+  Theorem C07_decode_zlib_safe_view : forall data out maxsz,
+    bytes data -> len data < BIG -> out_ok out -> 0 <= maxsz -> o_owner out = false ->
+    decode_post out maxsz (sc_decode_with (zlib_unc inflate) data out maxsz).
+  Proof. exact (decode_zlib_safe_view inflate inflate_bytes). Qed.
+
+  Theorem C07_decode_zlib_safe_max : forall data out maxsz,
+    bytes data -> len data < BIG -> out_ok out -> 0 < maxsz < BIG ->
+    decode_post out maxsz (sc_decode_with (zlib_unc inflate) data out maxsz).
+  Proof. exact (decode_zlib_safe_max inflate inflate_bytes). Qed.
+End Zlib.
+Print Assumptions C07_decode_zlib_safe.
+Print Assumptions C07_decode_zlib_safe_owner_max.
+Print Assumptions C07_decode_zlib_safe_view.
+Print Assumptions C07_decode_zlib_safe_max.
+
+(* the unguarded statement is refuted by a concrete 31-byte text (header size 2^63 + 8, zlib stream of
+   "aa"), owner output, no maximum: the model leaves its buffer exactly where ASan reports a
+   heap-buffer-overflow in the real code (known finding declared-size-over-2^62) *)
+Theorem C07_decode_unguarded_refuted :
+  exists data out, bytes data /\ len data < BIG /\ out_ok out /\ ~ alloc_ok data out 0 /\
+                   sc_decode data out 0 = Oob.
+Proof. exact decode_unguarded_refuted. Qed.
+Print Assumptions C07_decode_unguarded_refuted.
+
+Theorem C07_decode_zlib_unguarded_refuted : forall inflate,
+  sc_decode_with (zlib_unc inflate) refute_text refute_out 0 = Oob.
+Proof. exact decode_zlib_unguarded_refuted. Qed.
+Print Assumptions C07_decode_zlib_unguarded_refuted.
+
+(* --- sc_io_decode_info --------------------------------------------------------------------------- *)
+Theorem C07_decode_info_safe : forall data, bytes data ->
+  match sc_decode_info data with
+  | Ok (sz, fc) => 0 <= sz < M64 /\ byte fc | Err e => e = -1 | Oob => False | NoFuel => False end.
+Proof. exact decode_info_safe. Qed.
+Print Assumptions C07_decode_info_safe.
+
+(* "output consistent with the header": whenever both functions succeed on a text, the size reported by
+   decode_info is the byte count decode delivers, and the format character is 'z' (any decompressor) *)
+Theorem C07_decode_consistent_with_info : forall unc data out maxsz n b sz fc,
+  len data < BIG -> 0 < o_esz out ->
+  sc_decode_with unc data out maxsz = Ok (n, b) -> sc_decode_info data = Ok (sz, fc) ->
+  sz = n * o_esz out /\ sz = hdr_size data /\ fc = 122.
+Proof. exact decode_info_consistent. Qed.
+Print Assumptions C07_decode_consistent_with_info.
 
 (* --- libb64 decoder: no access outside the plaintext buffer -------------------------------------- *)
 (* for every code string and every decoder state, when the buffer has room for 3/4 of the code
@@ -65,6 +179,12 @@ Theorem C07_puff_construct_safe : forall lengths loff n, 0 <= loff -> 0 <= n <= 
                  nth 0 (h_count h') 0 + psum (h_count h') 16 = n.
 Proof. exact construct_ok. Qed.
 Print Assumptions C07_puff_construct_safe.
+
+(* the success branches are inhabited: "abc" in one line, owner and view, too small a view, a maximum *)
+Example C07_ex_decode : sc_decode ex_data (mkOut true 1 0) 0 = Ok (3, [97; 98; 99])
+  /\ sc_decode ex_data (mkOut false 1 3) 0 = Ok (3, [97; 98; 99])
+  /\ sc_decode ex_data (mkOut false 1 2) 0 = Err (-1) /\ sc_decode ex_data (mkOut true 1 0) 2 = Err (-1).
+Proof. exact (conj ex_decode_owner (conj ex_decode_view (conj ex_decode_view_small ex_decode_max))). Qed.
 
 (* the hypotheses are satisfiable: a fixed-Huffman block (zlib's output for "a", raw deflate 4b 04 00)
    and a stored block, decoded by the model *)
